@@ -235,7 +235,7 @@ namespace smt
         assert(root_level());
         // we try to avoid creating a new variable..
         std::sort(ls.begin(), ls.end(), [](const auto &l0, const auto &l1)
-                  { return variable(l0) < variable(l1); });
+                  { return l0 < l1; }); // by variable and then by sign, so that the repetitions of a literal are adjacent even when its complement is among the arguments..
         lit p;
         size_t lits_size = 0;
         std::string s_expr = "amo";
@@ -315,7 +315,7 @@ namespace smt
         assert(root_level());
         // we try to avoid creating a new variable..
         std::sort(ls.begin(), ls.end(), [](const auto &l0, const auto &l1)
-                  { return variable(l0) < variable(l1); });
+                  { return l0 < l1; }); // by variable and then by sign, so that the repetitions of a literal are adjacent even when its complement is among the arguments..
         lit p;
         size_t j = 0;
         std::string s_expr = "^";
